@@ -193,6 +193,9 @@ func checkDebug(c *run.Ctx, id string, e *ref.E, env *bridge.Env, user []*ref.Fu
 		if i >= len(entries) {
 			break
 		}
+		if hasFunVal(en.v) {
+			continue // function values print their address
+		}
 		if !reportShows(lines, en.col, ref.Show(en.v)) {
 			c.Violation("debug-render", fmt.Sprintf("the report does not show %s (value of %s) at column %d :: %s", ref.Show(en.v), en.src, en.col, src), w())
 			break
@@ -229,6 +232,34 @@ func checkDebug(c *run.Ctx, id string, e *ref.E, env *bridge.Env, user []*ref.Fu
 			c.Violation("debug-facade", fmt.Sprintf("yae.Debug report differs from the report of the same record :: %s", src), map[string]string{"facade": frep, "record": report})
 		}
 	}
+}
+
+func hasFunVal(v *ref.V) bool {
+	switch v.T.K {
+	case ref.KFun:
+		return true
+	case ref.KList:
+		for _, x := range v.L {
+			if hasFunVal(x) {
+				return true
+			}
+		}
+	case ref.KMap:
+		for _, kv := range v.M {
+			if hasFunVal(kv.V) {
+				return true
+			}
+		}
+	case ref.KObj:
+		for _, x := range v.O {
+			if hasFunVal(x) {
+				return true
+			}
+		}
+	case ref.KMaybe:
+		return v.P != nil && hasFunVal(v.P)
+	}
+	return false
 }
 
 func safeStr(v *val.Val) (s string) {
